@@ -7,6 +7,7 @@ package main
 //   seed K STATUS OFF           create K with msgpack body {status: STATUS}, ExpiredAt = now+OFF seconds (OFF = 0: none)
 //   spawn T shiftm HOW STATUS   ShiftMatchingTreasures(EXPIRATION_TIME ASC, HowMany, filter status == STATUS); parks at claim.candidates
 //   spawn T shiftexp HOW        ShiftExpiredTreasures(HowMany); parks at shift.selected (after the beacon selection, before the deletes)
+//                               (a shiftm thread parks there too, after claim.candidates)
 //   spawn T pexp HOW FILTER OFF NEW   PatchExpiredTreasures(HowMany, filter status == FILTER or `-`, SET status NEW, ExpiredAt now+OFF);
 //                               parks at claim.candidates (with a filter), pexp.selected, pexp.beforeReindex
 //   spawn T del K               Delete(K); parks at del.acquired (holding K's guard)
@@ -68,8 +69,15 @@ func c11Gen(rng *rand.Rand, tier string, w *bufio.Writer) {
 		fmt.Fprintf(w, "case %d forced %s\nseed k1 pending -3600\nseed k2 pending -3000\nseed k9 keep 0\nspawn P pexp 10 - 3600 leased\ndel k1\ngo P\ngo P\nstate\n", c, cfg)
 		c++
 	}
+	// the delete steps of a shift claim run after the selection pass: a delete and a patch in between
+	for _, cfg := range c11Cfgs {
+		fmt.Fprintf(w, "case %d forced %s\nseed k1 pending -3600\nseed k2 pending -3000\nseed k9 keep 0\nspawn S shiftexp 10\ndel k1\npatch k2 done\ngo S\nstate\n", c, cfg)
+		c++
+		fmt.Fprintf(w, "case %d forced %s\nseed k1 pending -3600\nseed k2 pending -3000\nseed k9 keep 0\nspawn A shiftm 10 pending\ngo A\ndel k1\npatch k2 done\ngo A\nstate\n", c, cfg)
+		c++
+	}
 	// lock-order inversion: a delete holding the record guard against a claim holding the beacon lock
-	fmt.Fprintf(w, "case %d forced m\nseed k1 pending -3600\nseed k2 pending -3000\nspawn D del k1\nspawn S shiftexp 10\ngo D\npoll S\n", c)
+	fmt.Fprintf(w, "case %d forced m\nseed k1 pending -3600\nseed k2 pending -3000\nseed k9 keep 0\nspawn D del k1\nspawn S shiftexp 10\ngo D\ngo S\nstate\n", c)
 	c++
 	keys := []string{"k1", "k2", "k3", "k4", "k5"}
 	sts := []string{"pending", "done"}
@@ -100,8 +108,11 @@ func c11Gen(rng *rand.Rand, tier string, w *bufio.Writer) {
 				if _, ok := live[t]; ok {
 					continue
 				}
-				if rng.Intn(2) == 0 {
+				if r := rng.Intn(3); r == 0 {
 					fmt.Fprintf(w, "spawn %s shiftm %d %s\n", t, 1+rng.Intn(3), sts[rng.Intn(2)])
+					live[t] = 2
+				} else if r == 1 {
+					fmt.Fprintf(w, "spawn %s shiftexp %d\n", t, 1+rng.Intn(3))
 					live[t] = 1
 				} else {
 					f := "-"
@@ -367,7 +378,7 @@ func (st *c11State) spawn(f []string) string {
 	switch {
 	case kind == "shiftm" && len(f) == 5:
 		how, _ := strconv.Atoi(f[3])
-		t.parks["claim.candidates"] = true
+		t.parks["claim.candidates"], t.parks["shift.selected"] = true, true
 		run = func() string { return st.doShiftM(how, f[4]) }
 	case kind == "shiftexp" && len(f) == 4:
 		how, _ := strconv.Atoi(f[3])
